@@ -455,16 +455,9 @@ def load(val: _T) -> PythonValueT | _T:
     """
     if not inspection.istexttype(val.__class__):
         return val
-    # Decode first: `strload` is memoized, and a `bytearray` (or a view of one) is not hashable.
-    loaded = strload(decode(val))  # type: ignore[arg-type]
-    # The memo must not hand out its own mutable containers.
-    #   (A literal tuple may hold lists or dicts.)
-    if isinstance(loaded, (list, dict, set, tuple)):
-        return copy.deepcopy(loaded)
-    return loaded
+    return strload(val)  # type: ignore[arg-type]
 
 
-@compat.lru_cache(maxsize=100_000)
 def strload(val: str | bytes | bytearray | memoryview) -> PythonValueT:
     """Attempt to decode a string-like input into a Python value.
 
@@ -487,14 +480,24 @@ def strload(val: str | bytes | bytearray | memoryview) -> PythonValueT:
     Args:
         val: The string-like input to be decoded.
     """
+    # Decode first: the memo is keyed on the text, and a `bytearray` (or a view of one) is not hashable.
+    loaded = _strload(decode(val))
+    # The memo must not hand out its own mutable containers.
+    #   (A literal tuple may hold lists or dicts.)
+    if isinstance(loaded, (list, dict, set, tuple)):
+        return copy.deepcopy(loaded)
+    return loaded
+
+
+@compat.lru_cache(maxsize=100_000)
+def _strload(val: str) -> PythonValueT:
     with contextlib.suppress(ValueError):
         return compat.json.loads(val)
 
-    decoded = decode(val)
     with contextlib.suppress(ValueError, TypeError, SyntaxError):
-        return ast.literal_eval(decoded)
+        return ast.literal_eval(val)
 
-    return decoded
+    return val
 
 
 PythonPrimitiveT: t.TypeAlias = "bool | int | float | str | None"
